@@ -12,8 +12,8 @@
 //     fc     k >= 1: the k-th element construction performed by the library throws; 0 = none   (org elem only)
 //     mc     1 iff this binary was built with -DC10_ELEM_MASSIGN_COMPILES (the compile probe harness/C10/probe_massign.cpp
 //            succeeded: move assignment of image<non-pixel element, non-propagating allocator> compiles)
-//     dg     read by the model only: 1 iff image::allocate_ of the tree under test keeps the requested dimensions of an image that
-//            needs no storage (source-selected model variant)
+//     dg     read by the model only (source-selected model variants): bit 0: image::allocate_ of the tree under test keeps the requested
+//            dimensions of an image that needs no storage; bit 1: move_assign takes over the dimensions of a source without storage
 //   ops (s, s2 = slots 0..3; t = allocator tag 0..2; al = alignment; v = pixel value)
 //     dflt s t al            image(al, A(t))
 //     dims s t al w h v      image(w, h, al, A(t)); then fill_pixels(view, v)   (user level, makes the content defined)
